@@ -25,3 +25,75 @@ pub mod alignment {
         Alignment { exponent }.align_modulo(ref_offset, offset)
     }
 }
+
+pub mod linker_script {
+    use crate::linker_script::Expression;
+
+    fn show(e: &Expression<'_>, out: &mut String) {
+        use Expression as E;
+        let bin = |name: &str, l: &Expression<'_>, r: &Expression<'_>, out: &mut String| {
+            out.push('(');
+            out.push_str(name);
+            out.push(' ');
+            show(l, out);
+            out.push(' ');
+            show(r, out);
+            out.push(')');
+        };
+        match e {
+            E::Number(n) => out.push_str(&format!("{n}")),
+            E::Symbol(s) => out.push_str(&format!("(sym {})", String::from_utf8_lossy(s))),
+            E::LocationCounter => out.push_str("(dot)"),
+            E::Add(l, r) => bin("add", l, r, out),
+            E::Subtract(l, r) => bin("sub", l, r, out),
+            E::Multiply(l, r) => bin("mul", l, r, out),
+            E::Divide(l, r) => bin("div", l, r, out),
+            E::LessThan(l, r) => bin("lt", l, r, out),
+            E::GreaterThan(l, r) => bin("gt", l, r, out),
+            E::LessEqual(l, r) => bin("le", l, r, out),
+            E::GreaterEqual(l, r) => bin("ge", l, r, out),
+            E::Equal(l, r) => bin("eq", l, r, out),
+            E::NotEqual(l, r) => bin("ne", l, r, out),
+            E::Min(l, r) => bin("min", l, r, out),
+            E::Max(l, r) => bin("max", l, r, out),
+            E::BitwiseAnd(l, r) => bin("and", l, r, out),
+            E::BitwiseOr(l, r) => bin("or", l, r, out),
+            E::BitwiseXor(l, r) => bin("xor", l, r, out),
+            E::LeftShift(l, r) => bin("shl", l, r, out),
+            E::RightShift(l, r) => bin("shr", l, r, out),
+            E::LogicalAnd(l, r) => bin("land", l, r, out),
+            E::LogicalOr(l, r) => bin("lor", l, r, out),
+            E::Sizeof(s) => out.push_str(&format!("(sizeof {})", String::from_utf8_lossy(s))),
+            E::Alignof(s) => out.push_str(&format!("(alignof {})", String::from_utf8_lossy(s))),
+            E::Origin(s) => out.push_str(&format!("(origin {})", String::from_utf8_lossy(s))),
+            E::Length(s) => out.push_str(&format!("(length {})", String::from_utf8_lossy(s))),
+            E::Addr(s) => out.push_str(&format!("(addr {})", String::from_utf8_lossy(s))),
+            E::Loadaddr(s) => out.push_str(&format!("(loadaddr {})", String::from_utf8_lossy(s))),
+            E::Align(x) | E::LogicalNot(x) | E::BitwiseNot(x) | E::Negate(x) => {
+                out.push_str(match e {
+                    E::Align(_) => "(align ",
+                    E::LogicalNot(_) => "(lnot ",
+                    E::BitwiseNot(_) => "(not ",
+                    _ => "(neg ",
+                });
+                show(x, out);
+                out.push(')');
+            }
+        }
+    }
+
+    /// Parses one expression; returns its syntax tree in prefix form, or `None` if it is rejected.
+    pub fn parse_expression(text: &str) -> Option<String> {
+        let e = crate::linker_script::verif_parse_expression(text)?;
+        let mut s = String::new();
+        show(&e, &mut s);
+        Some(s)
+    }
+
+    /// Parses and evaluates a constant expression. `Err("P")`: rejected by the parser;
+    /// `Err("E")`: evaluation error (e.g. division by zero).
+    pub fn eval_const(text: &str) -> Result<u64, &'static str> {
+        let e = crate::linker_script::verif_parse_expression(text).ok_or("P")?;
+        crate::expression_eval::verif_eval_const(&e).map_err(|_| "E")
+    }
+}
